@@ -1,0 +1,36 @@
+//go:build verif
+
+// Add-only observation hook for the /verif framework (property C19).  It only exposes the unexported stages of the
+// lightweight may-panic analysis so that a harness can compare each stage with its Coq model; it changes nothing.
+
+package maypanic
+
+import (
+	"go/token"
+
+	"golang.org/x/tools/go/ssa"
+)
+
+// VerifFindGoFunctions is findGoFunctions (function -> positions of the go statements launching it, before filtering).
+func VerifFindGoFunctions(allFunctions map[*ssa.Function]bool) map[*ssa.Function][]token.Pos {
+	return findGoFunctions(allFunctions)
+}
+
+// VerifDoesRecover is doesRecover.
+func VerifDoesRecover(f *ssa.Function) bool { return doesRecover(f) }
+
+// VerifFindRecoverFunctions is findRecoverFunctions.
+func VerifFindRecoverFunctions(allFunctions map[*ssa.Function]bool) map[*ssa.Function]bool {
+	return findRecoverFunctions(allFunctions)
+}
+
+// VerifDoesDeferRecover is doesDeferRecover.
+func VerifDoesDeferRecover(f *ssa.Function, recoverFunctions map[*ssa.Function]bool) bool {
+	return doesDeferRecover(f, recoverFunctions)
+}
+
+// VerifAllowList returns a copy of the allow list.
+func VerifAllowList() []string { return append([]string(nil), allowList...) }
+
+// VerifAllowListed is allowListed.
+func VerifAllowListed(path string) bool { return allowListed(path) }
